@@ -860,7 +860,7 @@ def run(rep):
     cov.update({
         "obligations": po["obligations"] + 1,
         "discharged": po["discharged"] + (0 if mm else 1),
-        "checker_cmd": "./coqmake theories/Properties/C14.vo (make; Proofs/MuxProofs.v, MuxRefine.v, MuxControl.v) + coqc on generated build/cases/C14/cases_*.v (vm_compute of Model.Mux.run_case)",
+        "checker_cmd": "./coqmake theories/Properties/C14.vo (make; Proofs/MuxProofs.v, MuxRefine.v, MuxControl.v, MuxWire.v, MuxPair.v, MuxHandles.v) + coqc on generated build/cases/C14/cases_*.v (vm_compute of Model.Mux.run_case)",
         "trusted_base": common.standard_trusted_base([
             "H-ATOM: tokio channels, semaphores, Notify, oneshot and the ExclusiveLock hand-over are atomic transitions of the model; scheduling is the sequential script with a drain to quiescence after every operation",
             "the transport in the model and in the harness (tokio::io::duplex with a 2^30 byte buffer) never exerts back pressure on the writer",
@@ -890,11 +890,18 @@ def run(rep):
                    "endpoint model (C14_endpoint_refines, C14_endpoint_buffer_bounded[_A]); (2) at most one transient stream per reusable stream and open transient streams per capability "
                    "<= min(local limit, peer limit) (C14_one_transient_per_stream[_A], C14_open_streams_bounded[_A]; invariant K of Proofs/MuxControl.v: unique handles, FIFO queues hold only "
                    "idle streams of their capability, hand-over only of a stream no handle holds). "
-                   "NOT proved (C14_full = C14_remaining_isolation_and_order in Properties/C14.v): (3) end-to-end byte conservation between paired handles of the two-sided system: the bytes a "
-                   "reader obtained are a prefix of the bytes its counterpart wrote, complete at end-of-stream. What is missing is the composition of the proved per-component lemmas across "
-                   "the byte-level wire (serialise/parse of interleaved frames, chunking by the dispatcher) and across OPEN/CLOSE incarnation boundaries (recv_open discard), which needs ghost "
-                   "histories of written/read bytes per handle; that part rests on the differential correspondence and on the predicates (single-source contiguous reads, symmetric pairing, "
-                   "EOS only after close and complete). Scheduler: theorems quantify over the settle-to-quiescence scheduler of the model (the one the correspondence uses), tokio primitives "
+                   "(3) end-to-end isolation and order for the pair of multiplexers with configurations accepted by Mux::verify and 1 <= write_frame_size <= 65535 (side_ok), in every "
+                   "reachable state, with ghost histories of written/read bytes in the model: (i) wire: parsing the serialisation of any list of well-formed frames gives the frames back, and "
+                   "the chunking dispatcher is that parser (C14_wire_parse, C14_dispatcher_parses); (ii)/(iii) per pair of reusable streams and per incarnation: tokens sent after the n-th "
+                   "OPEN = tokens the reader took ++ tokens in flight; the pair never fails; the bytes read_exact took in incarnation n are a prefix of the payload of the sender's n-th "
+                   "incarnation, all of it and closed at end-of-stream (C14_pair_invariant, C14_pair_never_fails, C14_stream_isolation_and_order); (iv) handles: the bytes the reads of a live "
+                   "reader handle returned (+ read in progress) are a prefix of the bytes the application of the other side wrote through ONE handle, of opposite kind, the writer of that "
+                   "incarnation of the paired stream; after a read reported end-of-stream they are exactly all bytes written through it and its write half is closed "
+                   "(C14_handle_isolation_and_order, C14_handle_invariant; paired reusable streams carry the same capability: C14_paired_streams_same_capability; no stage was refuted). "
+                   "NOT proved: the rephrasing of (iv) on the observation stream of a script (C14_full = C14_remaining_isolation_and_order in Properties/C14.v): events of complete_read "
+                   "vs the ghost history over rounds, history of a handle after its read half was dropped, capability recorded per handle (paired streams have equal capability and opposite kinds: proved; handles do not record the capability they were opened with), configurations "
+                   "outside side_ok; these rest on the differential correspondence and on the predicates (single-source contiguous reads, symmetric pairing, EOS only after close and complete). "
+                   "Scheduler: theorems quantify over the settle-to-quiescence scheduler of the model (the one the correspondence uses), tokio primitives "
                    "atomic (H-ATOM); other interleavings of the real runtime are covered only as far as the quiescent observations agree. Head-of-line blocking is documented behaviour, "
                    "not claimed absent; back pressure of a bounded transport on the writer is not modelled. "
                    "OBSERVATION (no change in /repo): write_frame_size = 0 and read_frame_size = 0 are accepted by Config::verify; with write_frame_size = 0 WriteStream::write_all never "
